@@ -35,6 +35,10 @@ class TLCError(Exception):
     """machinery failure (crash, timeout, parse error in the spec...) -> exit 2"""
 
 
+class TLCKilled(TLCError):
+    """the JVM was killed by a signal (OOM killer)"""
+
+
 class _Sink:
     """list-like adapter: PrintT values are handed to a callback instead of being kept"""
     def __init__(self, fn):
@@ -100,8 +104,29 @@ def _decode_printed(line, out, junk):
     return found
 
 
-def run(module, cfg, workdir, workers=16, timeout=600, coverage=False, simulate=None, depth=None,
-        seed=None, env=None, deadlock=None, extra=(), jvm=(), dfs=False, spec_dir=None, on_json=None):
+def run(module, cfg, workdir, **kw):
+    """Run TLC; when the JVM is killed from outside (rc -9 / 137: the kernel's OOM killer on an overloaded box) and no
+    PrintT value has been handed to a callback yet, try once more with a smaller heap and fewer workers."""
+    delivered = [0]
+    cb = kw.get('on_json')
+    if cb is not None:
+        def counting(x, _cb=cb):
+            delivered[0] += 1
+            _cb(x)
+        kw['on_json'] = counting
+    try:
+        return _run(module, cfg, workdir, **kw)
+    except TLCKilled:
+        if delivered[0]:
+            raise
+        time.sleep(20)
+        kw['workers'] = max(1, min(int(kw.get('workers', 16)), 6))
+        kw['jvm'] = tuple(kw.get('jvm', ())) + ('-Xmx3g',)
+        return _run(module, cfg, workdir, **kw)
+
+
+def _run(module, cfg, workdir, workers=16, timeout=600, coverage=False, simulate=None, depth=None,
+         seed=None, env=None, deadlock=None, extra=(), jvm=(), dfs=False, spec_dir=None, on_json=None):
     """Run TLC on spec/<module>.tla with spec/<cfg>.  Returns TLCResult.  Raises TLCError on machinery failure."""
     spec_dir = spec_dir or SPEC_DIR
     os.makedirs(workdir, exist_ok=True)
@@ -210,6 +235,8 @@ def run(module, cfg, workdir, workers=16, timeout=600, coverage=False, simulate=
         hard = [x for x in hard if 'violated' not in x and 'The error occurred' not in x]
     if hard and not res.violated:
         raise TLCError('TLC failed: %s\n--- tail ---\n%s' % (hard[:3], res.stdout_tail))
+    if p.returncode in (-9, 137) and not res.violated:
+        raise TLCKilled('TLC was killed (rc=%s): %s' % (p.returncode, res.cmd))
     if not res.generated and not res.violated and p.returncode != 0:
         raise TLCError('TLC produced no state count (rc=%s)\n%s' % (p.returncode, res.stdout_tail))
     return res
